@@ -84,6 +84,7 @@ type State struct {
 	ndBase   int
 	model    map[string]*big.Int // a model of pc[:modelOK] (feasibility shortcut)
 	modelOK  int
+	hashInjective bool
 }
 
 func cloneFrames(fs []*Frame) []*Frame {
@@ -800,7 +801,17 @@ func (w *W) convert(s *State, v Value, from, to types.Type) Value {
 					panic(execErr{"float->int conversion of out-of-range constant"})
 				}
 				if sg {
-					return mk("fp.to_sbv", BV(wd), t)
+					conv := mk("fp.to_sbv", BV(wd), t)
+					if wd == 64 || wd == 32 {
+						// Out-of-range / NaN conversions are implementation-defined in Go; on amd64 (this
+						// platform, and the one counterexamples are replayed on) they yield the minimum
+						// integer ("integer indefinite"). SMT-LIB leaves them unspecified.
+						lim := math.Ldexp(1, wd-1)
+						inRange := And(FpCmp("fp.geq", t, constFP(-lim, t.S)), FpCmp("fp.lt", t, constFP(lim, t.S)))
+						minInt := ConstBV(new(big.Int).Lsh(big.NewInt(1), uint(wd-1)), wd)
+						return Ite(inRange, conv, minInt)
+					}
+					return conv
 				}
 				return mk("fp.to_ubv", BV(wd), t)
 			case fIsF && tIsF:
